@@ -30,7 +30,7 @@ def tla(v):
     raise TypeError(v)
 
 
-def write_mc(workdir, name, part, dims=(1, 2, 3), maxrank=1, instances=()):
+def write_mc(workdir, name, part, dims=(1, 2, 3), maxrank=1, instances=(), follows=False):
     os.makedirs(workdir, exist_ok=True)
     mod = "MC_Fantasy_" + name
     with open(os.path.join(workdir, mod + ".tla"), "w") as f:
@@ -38,8 +38,9 @@ def write_mc(workdir, name, part, dims=(1, 2, 3), maxrank=1, instances=()):
             mod, ", ".join(map(str, dims)), ",\n  ".join(tla(i) for i in instances)))
     cfg = os.path.join(workdir, mod + ".cfg")
     inv = {"shapes": ["ShapesOK"], "update": ["UpdateOK"], "machine": ["DataIsConcatenation"], "list": ["ListOK"]}[part]
-    tlc.write_cfg(cfg, spec="Spec", constants={"Part": part, "Dims": "<- DimsDef", "MaxRank": maxrank, "Instances": "<- InstDef"},
-                  invariants=inv, properties=["SourceUntouched", "DataFixed"] if part == "machine" else [])
+    tlc.write_cfg(cfg, spec="Spec", constants={"Part": part, "Dims": "<- DimsDef", "MaxRank": maxrank, "Instances": "<- InstDef",
+                                          "FantasyFollowsSource": bool(follows)},
+                  invariants=inv, properties=["SourceUntouched", "DataFixed", "HyperOwn"] if part == "machine" else [])
     return os.path.join(workdir, mod + ".tla"), cfg
 
 
@@ -422,7 +423,7 @@ def run_tree_config(torch, gpytorch, settings, c):
     kind, lik_kind, mean = c["kind"], c["lik"], c["mean"]
     n, m, d, ms = 5, 2, 1, 3
     g = torch.Generator().manual_seed(c["seed"])
-    names = ["%s(%d)" % ("F" if o["a"] == "GetFantasy" else "P", o["of"]) for o in c["ops"]]
+    names = ["%s(%d)" % ({"GetFantasy": "F", "Predict": "P", "Refit": "R"}[o["a"]], o["of"]) for o in c["ops"]]
     desc = "%s/%s/%s-mean fast_pred_var=%s history=%s" % (kind, lik_kind, mean, c["fpv"], " ".join(names))
     cell = "C04/tree/%s/%s/%s-mean" % (kind, lik_kind, mean)
     res = dict(key=["tree", kind, lik_kind, mean, c["fpv"], names], ok=True, nontrivial=True, sample=dict(config=desc))
@@ -446,7 +447,11 @@ def run_tree_config(torch, gpytorch, settings, c):
     ok, r0 = core.guarded(lambda: predict(model))          # the source needs a strategy before it can be fantasized
     if not ok:
         return fail("source-predict-raises", r0)
-    tree = [dict(model=model, x=x, y=y, noise=noise, evaluated=True)]
+    def own_hypers(mdl):
+        return {k2: v.detach().clone() for k2, v in mdl.state_dict().items() if not (lik_kind.startswith("fixed") and k2.endswith("noise_covar.noise"))}
+
+    # "hypers": the values the model was given - by its creation (a copy of its parent's at that moment) or by its own latest Refit
+    tree = [dict(model=model, x=x, y=y, noise=noise, evaluated=True, hypers=own_hypers(model))]
 
     def check(i, when):
         t = tree[i]
@@ -454,8 +459,7 @@ def run_tree_config(torch, gpytorch, settings, c):
         if not ok:
             return fail("predict-raises", "model %d (%s): %s" % (i + 1, when, fp))
         fresh, _ = make_model(torch, gpytorch, kind, lik_kind, t["x"], t["y"], t["noise"], d, False, mean)
-        sd = {k2: v.clone() for k2, v in model.state_dict().items() if not (lik_kind.startswith("fixed") and k2.endswith("noise_covar.noise"))}
-        fresh.load_state_dict(sd, strict=False)
+        fresh.load_state_dict({k2: v.clone() for k2, v in t["hypers"].items()}, strict=False)
         rp = predict(fresh)
         first = "its first evaluation" if not t["evaluated"] else "re-evaluated"
         t["evaluated"] = True
@@ -481,7 +485,20 @@ def run_tree_config(torch, gpytorch, settings, c):
                 return fail("raises", "step %d get_fantasy_model of model %d raised %s" % (step, k + 1, fm))
             tree[k]["children"] = tree[k].get("children", 0) + 1
             tree.append(dict(model=fm, x=torch.cat([tree[k]["x"], xf], -2), y=torch.cat([tree[k]["y"], yf], -1),
-                             noise=None if noise is None else torch.cat([tree[k]["noise"], nf], -1), evaluated=False))
+                             noise=None if noise is None else torch.cat([tree[k]["noise"], nf], -1), evaluated=False,
+                             hypers={k2: v.clone() for k2, v in tree[k]["hypers"].items()}))
+        elif o["a"] == "Refit":                               # new hyperparameter values for model k alone, the documented way
+            mk = tree[k]["model"]
+            mk.train()
+            with torch.no_grad():
+                for q, prm in enumerate(mk.parameters()):
+                    prm.add_(0.4 + 0.15 * q)
+            mk.eval()
+            tree[k]["hypers"] = own_hypers(mk)
+            tree[k]["refit"] = True
+            bad = check(k, "step %d (after its re-fit)" % step)
+            if bad:
+                return bad
         else:
             bad = check(k, "step %d" % step)
             if bad:
@@ -514,7 +531,13 @@ def run(ck):
     jobs.append(((mod, cfg), dict(name=PID + "/machine", check=False, workers=2, dump=True)))
     mod, cfg = write_mc(wd, "list", "list")
     jobs.append(((mod, cfg), dict(name=PID + "/list", dump=True, check=False, workers=2)))
-    rs = tlc.run_many(jobs, parallel=4)
+    mod, cfg = write_mc(wd, "machine_follows", "machine", follows=True)
+    jobs.append(((mod, cfg), dict(name=PID + "/machine_follows", check=False, workers=2)))
+    rs = tlc.run_many(jobs, parallel=5)
+    broken = rs.pop()
+    ck.add_tlc(broken, "Fantasy machine, a fantasy follows its source's later hyperparameters (must be rejected)")
+    if not (broken.violation and broken.violation["name"] == "HyperOwn"):
+        ck.vacuous("the family-tree machine in which a re-fit of the source reaches its fantasies is accepted by TLC")
     for lab, r in zip(("shapes", "update (rational bordered system)", "machine", "list (per-member routing)"), rs):
         ck.add_tlc(r, "Fantasy " + lab)
         if r.violation:
@@ -565,7 +588,8 @@ def run(ck):
     combos = [("kiss", "homo", "const"), ("kiss", "homo", "linear"), ("exact", "homo", "linear"), ("exact", "fixed+learned", "const")]
     for j, h in enumerate(hists):
         for q, (knd, lk, mn) in enumerate(combos):
-            if thorough or (j + q) % 4 == 0:
+            refit = any(a == "Refit" for a, _ in h)            # re-fit histories: only the homoskedastic-noise combos differ from the others
+            if thorough or (j + q) % (16 if refit else 4) == 0:
                 cfgs.append(dict(tree=True, kind=knd, lik=lk, mean=mn, fpv=bool((j + q) % 2), ops=[dict(a=a, of=k) for a, k in h], seed=ck.seed * 1000 + len(cfgs)))
     lists = [dict(members=[str(x) for x in st["c"]["members"]], noise=[str(x) for x in st["c"]["noise"]]) for st in rs[3].states()]
     if not lists:
